@@ -77,4 +77,23 @@ pub mod k {
         kani::assume(r >= ax && r >= ay && r <= ax + ay);
         r
     }
+
+    /// `f64::rem_euclid` by contract.  NEEDED: Kani 0.68 / CBMC 6.11 mis-model the f64 remainder (`100.0 % 360.0 == 100.0` is
+    /// UNSATISFIABLE, the operator yields 0.0), so every assertion behind a float `rem_euclid` was vacuous (found with seed
+    /// C15-5, DESIGN 7.5).  Contract (over-approximation of std's `let r = x % m; if r < 0 { r + |m| } else { r }`):
+    /// NaN for non-finite x or zero / non-finite modulus; otherwise 0 <= r <= |m|, r == |m| only for negative x (the rounding
+    /// case `-tiny + m == m`), exact for -|m| <= x < |m|, arbitrary in range beyond.
+    pub fn rem_euclid_stub(x: f64, rhs: f64) -> f64 {
+        let r: f64 = kani::any();
+        if !x.is_finite() || !rhs.is_finite() || rhs == 0.0 {
+            kani::assume(r.is_nan());
+            return r;
+        }
+        let m = if rhs < 0.0 { -rhs } else { rhs };
+        kani::assume(r >= 0.0 && r <= m);
+        if r == m { kani::assume(x < 0.0); }
+        if x >= 0.0 && x < m { kani::assume(r == x); }
+        if x < 0.0 && x >= -m { kani::assume(r == x + m); }
+        r
+    }
 }
